@@ -52,6 +52,9 @@ func histSources(kind string, inline bool) (entry string, files map[string]strin
 		}
 	case kind == "lexerr":
 		main = "a{{ 'unclosed }}b" + main
+	case kind == "opsplit":
+		// a syntax error first, then every two-word operator with its words two blanks, a TAB and a line break apart
+		main = "{% foo %}{{ a is  not b }}{{ a not\n in b }}{{ a starts\twith b }}{{ a ends   with b }}{{ a is not\tb }}" + main
 	case kind == "lexuni":
 		// multi-byte letters and digits where a name or number is expected, in a print and in a tag
 		main = "a{{ \u00e9 }}b{% if x and \u00fc %}c{% endif %}{% set n = \u0663 %}" + main
